@@ -33,8 +33,10 @@ struct World {
     return o.empty() ? -1 : o[r.pick((unsigned)o.size())];
   }
   // classify a slot whose post-state the property leaves open, by observation only
+  int followup = -1; unsigned followup_d = 0;  // a just-consumed vector and the dimension it had
   void observe_source(int i) {
     Slot& x = s[i];
+    if (x.d >= 2) { followup = i; followup_d = x.d; }
     unsigned d = x.v->Dim();
     if (d == 0) { x.k = EMPTY; x.d = 0; x.buf = -1; x.vals.clear(); return; }
     const double* p = &(*x.v)[0];
@@ -181,6 +183,21 @@ void run_history(vh::Ctx& c, vh::Rng& r, const std::string& prop, bool extended,
       int op = r.pick(extended ? 22 : 14);
       unsigned d = dims[r.pick(3)];
       std::ostringstream os;
+      if (w.followup >= 0) {
+        // the follow-up the property names first: assign to a moved-from / consumed vector, with
+        // a value of the size it used to have (which is what reuses stale storage if any is left)
+        int t = w.followup; unsigned fd = w.followup_d; w.followup = -1;
+        if (r.coin(0.6) && w.s[t].k != DEAD && w.s[t].k != EXT) {
+          Vec val = rand_vec(r, fd);
+          Kind tk = w.s[t].k;
+          os << " s" << t << ":" << kname[tk] << "=fresh" << fd; w.hist += os.str(); c.desc(w.hist);
+          SU_vector tmp(val);
+          if (r.coin()) *w.s[t].v = tmp; else *w.s[t].v = SU_vector(val) + tmp - tmp;
+          w.adopt_target(t, val, 2, "assign-to-consumed", true);
+          w.check_all("assignment to a consumed vector"); c.count("op.assign_to_unspecified"); c.count("op.followup_same_size_assignment");
+          continue;
+        }
+      }
       auto fits = [&](int b, unsigned dd) { return (size_t)dd * dd <= w.bufs[b]->n; };
       if (op == 0 || op == 1) {
         // ---- construct into a dead slot
